@@ -131,6 +131,7 @@ def channel_variants(rng, tool, opts, doc_text, fname, files, knobs,
 def doc_for(rng, **kw):
     opts = dict(sets=rng.random() < 0.15, anchors=rng.random() < 0.4,
                 nonascii=rng.random() < 0.15, multiline=rng.random() < 0.15,
+                special=rng.random() < 0.15,
                 max_nodes=rng.choice([4, 8, 16]))
     opts.update(kw)
     return gd_document(rng, opts)
